@@ -125,7 +125,7 @@ def run(tier, seed):
         if len(evs) != len(ch):
             raise common.Infra(f"vdrive c15 answered {len(evs)} of {len(ch)} calls")
         merged = [dict(id=c["id"], ctl=c["ctl"], args=c["args"], outs=evs[c["id"]]["outs"], sts=evs[c["id"]]["sts"],
-                       princ=evs[c["id"]]["princ"], prin1=evs[c["id"]]["prin1"]) for c in ch]
+                       princ=evs[c["id"]]["princ"], prin1=evs[c["id"]]["prin1"], agree=evs[c["id"]].get("agree", [])) for c in ch]
         r = common.run_tlc_with_files(SPEC, "FormatTrace", "FormatTrace.cfg", {"traces.ndjson": merged, "deviations.ndjson": devs}, timeout=3000, heap="3g")
         found = list(common.emitted(r["out"], prefix="RESULT"))
         if not found:
